@@ -6,8 +6,7 @@ import IpcHub.Model.FlvJoin
 /-
 Line protocol of property C08 (one output line per input line):
 
-  mux  <key=value>… f:<mediaType>:<dts ns>:<pts ns>:<payload hex>…      (with join=1: oracle only,
-       Spec.checkJoined on impl= — a client that joined the running stream somewhere)
+  mux  <key=value>… f:<mediaType>:<dts ns>:<pts ns>:<payload hex>…
        keys: cfg=gen|pinned|fixed codec=h264|h265|other w h fr vdr sps pps vps hv hs aac asr ass ach adr asc
              date known impl sv (H.264: h264.RawSPS.Decode(sps) succeeds)
        → `model=<same|hex|err> dead=<0|1> app=<0|1> spec=<ok|fail> mspec=<ok|fail>` (same: equal to impl=)
@@ -166,13 +165,6 @@ def handleMux (joinAt : Bool) (ts : List String) : String :=
             let sp := checkJoinedAt src want gop k impl
             if bs = impl then s!"model=same dead={boolStr dead} app={boolStr japp} spec={okStr sp} mspec={okStr sp}"
             else s!"model={bytesToHex bs} dead={boolStr dead} app={boolStr japp} spec={okStr sp} mspec={okStr (checkJoinedAt src want gop k bs)}"
-      else if get kv "join" == some "1" then
-        -- a client that joined the running stream: oracle only (Spec.checkJoined on impl=)
-        let cf := frames.filter (carried src)
-        let japp := codec ≠ .other && hevcFaithful vm && src.usable && known = 0 && cf.all frameOk &&
-          sps.length < 65536 && pps.length < 65536 && vps.length < 65536 && asc.length + 2 < 16777216 &&
-          cf.all (fun f => cf.all (fun g => decide (tagTimeMs g - tagTimeMs f < 2147483648 ∧ tagTimeMs f - tagTimeMs g ≤ 2147483648)))
-        s!"model=same dead=0 app={boolStr japp} spec={okStr (checkJoined src frames impl)} mspec=ok"
       else
       match muxBytes (cfgOf kv) vm am date known frames with
       | none => s!"model=err dead=0 app={boolStr app} spec={okStr (checkMux src want impl)} mspec=fail"
